@@ -11638,11 +11638,16 @@ class TensorDictBase(MutableMapping):
                     # the tensordict the method was called on does not exist any more
                     # (e.g. `with make_td().transpose(0, 1) as t:`): there is nothing
                     # to write back to
-                    return self
-                return _inv_caller(self, args, kwargs, prev_ref)
+                    return self if exc_type is None else False
+                out = _inv_caller(self, args, kwargs, prev_ref)
+                # When the body was left by a BaseException that is not an Exception
+                # (KeyboardInterrupt, SystemExit, GeneratorExit, CancelledError) Python asks
+                # the value returned here for its truth to know whether to swallow it:
+                # bool(tensordict) raises and would replace the exception in flight.
+                return out if exc_type is None else False
             else:
                 raise NotImplementedError(f"Unrecognised function {last_op}.")
-        return self
+        return self if exc_type is None else False
 
     def clear_refs_for_compile_(self) -> T:
         """Clears the weakrefs in order for the tensordict to get out of the compile region safely.
